@@ -497,16 +497,19 @@ class RefAsm:
     def place(self):
         g0, g1 = self.zones['GLOBAL']
         lines = self.res.lines
+        soft = None
         for i, line in enumerate(lines):
             k = line.kind
             z0, z1 = self.zones[line.zone]
             if k == 'org':
                 n = self.value(line.scope, line.stmt[1])
                 addr = n if line.stmt[2] is None else z0 + n
+                if addr < 0:
+                    raise DontCare('negative origin')
                 if addr < g0 or addr > g1:
-                    raise DontCare('origin outside GLOBAL')
+                    soft = soft or 'origin outside GLOBAL'       # rejected only if a byte is then placed there
                 if addr < z0 or addr > z1 + 1:
-                    raise DontCare('origin outside its zone')
+                    soft = soft or 'origin outside its zone'
                 line.addr = addr
                 self.cursor[line.zone] = addr
                 continue
@@ -517,7 +520,7 @@ class RefAsm:
                     raise DontCare('non-positive page size')
                 addr = ((cur + p - 1) // p) * p
                 if addr > z1 + 1:
-                    raise DontCare('alignment moves past the zone end')
+                    soft = soft or 'alignment moves past the zone end'
                 line.addr = addr
                 self.cursor[line.zone] = addr
                 continue
@@ -543,9 +546,11 @@ class RefAsm:
                     if line.muted:
                         raise DontCare('muted bytes outside the zone')
                     raise Reject(f'bytes at {lo}..{hi} outside zone {line.zone} {z0}..{z1}')
-            elif cur > z1 + 1:
-                raise DontCare('zero-length line beyond the zone')
+            elif cur > z1 + 1 or cur < z0:
+                soft = soft or 'zero-length line outside the zone'
             self.cursor[line.zone] = cur + size
+        if soft:
+            raise DontCare(soft)
 
     # -- pass 3: bytes --------------------------------------------------------------------------------
     def to_bytes(self, value, nbytes):
